@@ -67,6 +67,13 @@ def gen_unit(rng):
         if r < 0.03 and B:
             # one value whose printed row is far above any plausible buffer size, after smaller ones
             B[rng.randrange(len(B))] = {"id": 4, "s": "y" * 70000, "arr": [1, 2], "n": 1}
+    if rng.random() < 0.12:
+        # top-level scalars are passed over under this option, whatever their text looks like (a string ending in a backslash,
+        # strings full of quotes and brackets), and the records behind them are untouched
+        args = ["--only-objects-and-arrays"] + args
+        for part in (A, B):
+            for _ in range(rng.choice((1, 2, 3))):
+                part.insert(rng.randint(0, len(part)), rng.choice(["dir\\", "a\\\\", "q\\\"", "\\", "x", 5, None, "{", "tail\\", "[\"", True, 2.5]))
     return {"args": args, "A": [jm.dumps(v) for v in A], "B": [jm.dumps(v) for v in B], "headers": ("csv" in out or "--headers" in out),
             "funcs": sorted(g.used)}
 
